@@ -16,7 +16,7 @@ PRELUDE := -include $(H)/vsched_prelude.hpp
 LOCK_SRCS := pessimistic_lock optimistic_lock mcs_lock
 
 .PHONY: all lock thread zipf clean
-all: lock
+all: lock thread
 
 # ---------------------------------------------------------------- shared objects (no repository code)
 $(B)/common/%.o: $(H)/%.cpp
@@ -38,6 +38,22 @@ $(eval $(call LOCK_VARIANT,1))
 $(eval $(call LOCK_VARIANT,10))
 
 lock: $(B)/lock_r1/lock_harness $(B)/lock_r10/lock_harness
+
+# ---------------------------------------------------------------- thread family, one variant per capacity
+THREAD_SRCS := id_manager epoch_manager epoch_guard component/epoch
+define THREAD_VARIANT
+$(B)/thread_c$(1)/repo_%.o: $(REPO)/src/thread/%.cpp $(H)/vsched_prelude.hpp $(H)/vsched_api.hpp
+	@mkdir -p $$(dir $$@)
+	$(CXX) $(COMMON) $(PRELUDE) $(REPODEF) -DDBGROUP_MAX_THREAD_NUM=$(1) -DCPP_UTILITY_SPINLOCK_RETRY_NUM=10 -I$(REPO)/include -c $$< -o $$@
+$(B)/thread_c$(1)/interp_thread.o: $(H)/interp_thread.cpp
+	@mkdir -p $$(dir $$@)
+	$(CXX) $(COMMON) $(PRELUDE) $(REPODEF) -DDBGROUP_MAX_THREAD_NUM=$(1) -DCPP_UTILITY_SPINLOCK_RETRY_NUM=10 -I$(REPO)/include -c $$< -o $$@
+$(B)/thread_c$(1)/thread_harness: $(B)/thread_c$(1)/interp_thread.o $(foreach s,$(THREAD_SRCS),$(B)/thread_c$(1)/repo_$(s).o) $(B)/common/vsched_rt.o $(B)/common/gen_thread.o $(B)/common/thread_main.o
+	$(CXX) $(STD) $(SAN) -pthread $$^ -lrapidcheck -o $$@
+endef
+THREAD_CAPS := 1 2 3 4 8
+$(foreach c,$(THREAD_CAPS),$(eval $(call THREAD_VARIANT,$(c))))
+thread: $(foreach c,$(THREAD_CAPS),$(B)/thread_c$(c)/thread_harness)
 
 clean:
 	rm -rf $(B)
